@@ -16,5 +16,10 @@ if __name__ == "__main__":
     from harness import conform
     pool = mp.get_context("spawn").Pool(min(16, os.cpu_count() or 1))
     s = conform.ensure(pool=pool)
+    # pre-compile the numba closures used by C06-C10/C15/C18 (disk cache; safe to re-run)
+    import subprocess
+    for c in ("C06", "C07", "C08", "C10"):
+        subprocess.run([sys.executable, str(V / "run.py"), c, "--tier", "quick"], capture_output=True)
+        subprocess.run(["git", "-C", str(V), "checkout", "--", f"evidence/{c}.json"], capture_output=True)
     pool.close(); pool.join()
     print("setup: conformance", {k: (v if not isinstance(v, list) else len(v)) for k, v in s.items()})
